@@ -355,6 +355,18 @@ def run_sequence(run, seq, start, kind):
         if r != want:
             run.fail("result", c2, dict(expected=want, observed=r))
         oracle_views(run, las, lm, c2)
+        if op[0] == "set_data" and r == "ok" and len(op[1]) > 0 and len(op[1][0]) > 0:      # (an empty array renames nothing)
+            # set_data names the curves and re-assigns every duplicate suffix: afterwards a curve whose name is unique must be
+            # reachable under exactly that name, duplicates under name:1..name:n in order (mnemonic indexing agrees with the list model)
+            names = [c["name"] for c in lm.l]
+            eqn = (lambda a, b: a.upper() == b.upper()) if tr else (lambda a, b: a == b)
+            for i, nm in enumerate(names):
+                grp = [j for j, x in enumerate(names) if eqn(useful(x), useful(nm))]
+                want_key = useful(nm) if len(grp) == 1 else useful(nm) + ":%d" % (grp.index(i) + 1)
+                got_key = list(las.keys())[i] if i < len(las.keys()) else None
+                if got_key != want_key:
+                    run.fail("set_data-session-names", c2, dict(index=i, expected=want_key, observed=got_key))
+                    break
         st = dict(r=r, curves=dump(las), spec=lm.state())
         st.update(views(las))
         steps.append(st)
